@@ -851,7 +851,9 @@ def main():
             cases.append((['file', name, 60, j], [['refine_layers', sorted(rr.sample(range(1, nl), rr.randint(1, 4))), rr.choice([2, 3, 4])]]))
         add('list', (cases, npts, seed * 1000 + len(tasks), deadline))
 
-    order = sorted(range(len(tasks)), key=lambda i: {'file': 0, 'subsets': 1, 'list': 2}[tasks[i][0]])
+    rest = [i for i in range(len(tasks)) if tasks[i][0] != 'file']
+    random.Random(seed).shuffle(rest)          # a truncation by the time guard then hits all case families evenly
+    order = [i for i in range(len(tasks)) if tasks[i][0] == 'file'] + rest
     results = {}
     with mp.Pool(min(16, os.cpu_count() or 4)) as pool:
         for i, rec in pool.imap_unordered(run_task, [(i, tasks[i]) for i in order], chunksize=1):
